@@ -104,7 +104,7 @@ func genSpec(r *rand.Rand, ver version.Version, big bool) *sxSpec {
 	if r.Intn(8) == 0 {
 		nh = 20 + r.Intn(21)
 	}
-	lens := []int{0, 1, 5, 22, 23, 24, 25, 200, 255, 256, 257}
+	lens := []int{0, 1, 5, 22, 23, 24, 25, 200, 255, 256, 257, 511, 512, 513, 1023, 1024, 1025, 4095, 4096, 4097}
 	for i := 0; i < nh; i++ {
 		name := randCase(r, "x-"+randToken(r, 1+r.Intn(24)))
 		for j := 0; j <= r.Intn(3)/2; j++ {
